@@ -86,4 +86,6 @@ def well_formed(triples, top=None):
         if t[1] == ':instance':
             inst[t[0]] += 1
     vs = variables_of(triples, top)
+    if any(not isinstance(v, str) for v in vs):
+        return False      # variables are symbols of the notation; anything else cannot be read back as itself
     return all(inst[v] == 1 for v in vs)
